@@ -1,6 +1,7 @@
 import Ogen.Props.C12
 import Ogen.Props.C07
 import Ogen.Props.C16
+import Ogen.DocLines_proof
 /-!
 # C11 — the generator is total (partial: the modelled components only)
 
@@ -35,4 +36,31 @@ theorem pointer_total (ptr : Ptr.Bytes) (n : Ptr.Node) :
   | ok r => exact .inl ⟨r, rfl⟩
   | err => exact .inr (.inl rfl)
   | unmodelled => exact .inr (.inr rfl)
+/-! ### the doc-comment line breaker (`ir.splitLine`, gen/ir/description.go)
+
+`DocLines.splitLoop` is the `for` loop of `splitLine`; Lean accepts it as a total function with the length of the
+rest as measure (`lastBreak_lt`: the break index lies inside the rest, so each round removes at least one byte) —
+**the loop terminates on every input**.  Tied to the code through a hook (`ir.VerifSplitLine`, driver tag
+`docsplit`): all texts up to length 7 over a five-symbol alphabet at small limits, the description shapes of
+`c11Shapes`, random texts. -/
+
+/-- the loop always produces at least one line (and returns: it is a Lean function) -/
+theorem doc_split_total (limit : Nat) (s : DocLines.Str) : DocLines.splitLoop limit s ≠ [] :=
+  DocLines.loop_nonempty limit s
+
+/-- **nothing but white space is dropped**: the lines, concatenated, are the input without some white space -/
+theorem doc_split_keeps_text (limit : Nat) (s : DocLines.Str) :
+    DocLines.nonSp (DocLines.splitLine limit s).flatten = DocLines.nonSp s :=
+  DocLines.split_keeps_nonspace limit s
+
+/-- every line produced by a cut (every line but the last) has at most `limit - 1` bytes -/
+theorem doc_split_line_bound (limit : Nat) (s : DocLines.Str) :
+    ∀ l ∈ (DocLines.splitLoop limit s).dropLast, l.length ≤ limit - 1 :=
+  DocLines.loop_cut_lines_short limit s
+
+example : DocLines.splitLine 10 [97, 97, 32, 98, 98, 98, 46, 99, 99, 99, 99, 32, 100] =
+    [[97, 97, 32, 98, 98, 98, 46], [99, 99, 99, 99, 32, 100]] := by
+  simp [DocLines.splitLine, DocLines.trim, DocLines.trimLeft, DocLines.isSp, DocLines.splitLoop, DocLines.lastBreak,
+    DocLines.lastBreakGo, DocLines.isBreak]
+
 end C11
